@@ -55,6 +55,14 @@ func c06Catalogue() []Case {
 		{Prof: "c06", Keys: []string{"x"}, Epilogue: true, Deep: true, Note: "writer || RC tx write-then-read || RU observer",
 			Prologue: []COp{{K: "begin", Slot: 1, Lvl: 1}, {K: "begin", Slot: 2, Lvl: 0}},
 			Clients:  [][]COp{{set(0, 2)}, {{K: "set", Slot: 1, Key: 0, Len: 3}, {K: "get", Slot: 1, Key: 0}}, {{K: "get", Slot: 2, Key: 0}}}},
+		// two readers of one key overlap while a writer completes in between (reads must not be served from one
+		// another's work: each takes effect inside its own interval)
+		{Prof: "c06", Keys: []string{"x"}, Epilogue: true, Note: "reader || writer-then-reader of the same key",
+			Prologue: []COp{set(0, 1)}, Clients: [][]COp{{get(0)}, {set(0, 2), get(0)}}},
+		{Prof: "c06", Keys: []string{"x"}, Epilogue: true, Note: "reader || reader || writer of the same key",
+			Prologue: []COp{set(0, 1)}, Clients: [][]COp{{get(0)}, {get(0), get(0)}, {set(0, 2)}}},
+		{Prof: "c06", Keys: []string{"x", "y"}, Epilogue: true, Note: "lister || writer-then-lister",
+			Prologue: []COp{set(0, 1)}, Clients: [][]COp{{{K: "keys"}}, {set(1, 2), {K: "keys"}}}},
 		// the directory limit is 2 here (light backend only): the prologue fills the only directory, so the
 		// concurrent writes meet the moment it is retired and replaced
 		{Prof: "c06", Keys: []string{"x", "y", "z", "w"}, Epilogue: true, Deep: true, DirMax: 2, Note: "two writers at the moment the only directory is full",
